@@ -1,0 +1,34 @@
+"""
+Optional verification trace hooks (no-ops unless ``LIESEL_VERIF=1``).
+
+When the environment variable ``LIESEL_VERIF`` is set to ``1`` and
+``LIESEL_VERIF_TRACE`` names a file, :func:`emit` appends one JSON line per event to
+that file. With the guard off, nothing is imported, recorded or written.
+"""
+
+import json
+import os
+
+
+def enabled() -> bool:
+    """Whether verification hooks are switched on."""
+    return os.environ.get("LIESEL_VERIF") == "1" and bool(
+        os.environ.get("LIESEL_VERIF_TRACE")
+    )
+
+
+def emit(event: str, **fields) -> None:
+    """Appends one event to the trace file (only if :func:`enabled`)."""
+    if not enabled():
+        return
+
+    def conv(x):
+        try:
+            return x.tolist()
+        except AttributeError:
+            return x
+
+    rec = {"event": event}
+    rec.update({k: conv(v) for k, v in fields.items()})
+    with open(os.environ["LIESEL_VERIF_TRACE"], "a") as f:
+        f.write(json.dumps(rec) + "\n")
